@@ -747,7 +747,7 @@ def nowait_request_during_rekey(role, initiator):
         else:
             peer_gate.close_gate()                # the peer cannot read the subject's kex messages: same window
             peer._send_kex_init()
-            L.wait_until(lambda: (sub.in_kex and any(r[0] == 20 for r in tap.tx[mark:])) or not sub.is_alive(), 30,
+            L.wait_until(lambda: any(r[0] == 20 for r in tap.tx[mark:]) or not sub.is_alive(), 30,
                          "the subject to answer the peer's KEXINIT")
         entered = threading.Event()
         orig_sum = sub._send_user_message
